@@ -216,7 +216,9 @@ func runResend(r *hk.Run, rs resendScenario, o *origin.Origin, no int) {
 		if k == 0 && len(rs.ReqOrder) > 0 {
 			ops = append([]string{"OpOrder " + csList(rs.ReqOrder)}, ops...)
 		}
-		skip := func(key string) bool { return key == "Cookie" || key == "Content-Type" && !strings.Contains(fmt.Sprint(rh), "Content-Type") }
+		skip := func(key string) bool {
+			return key == "Cookie" || key == "Content-Type" && !strings.Contains(fmt.Sprint(rh), "Content-Type")
+		}
 		coqSteps = append(coqSteps, fmt.Sprintf("(%s, %s, %s)", hk.CoqList(ops), coqKVMap(cliSnap, nil), coqKVMap(capt.hdr, skip)))
 	}
 	r.Add(hk.Case{Coq: "ResendCase " + hk.CoqList(coqSteps), Desc: map[string]interface{}{"kind": "resend-model-" + pn, "resend": rs}},
